@@ -479,7 +479,10 @@ def load_universe(run, cfg, label):
             if sorted(recs) != list(range(1, n + 1)):
                 raise MachineryError(f"ValLaws {tag} export incomplete")
             for f in fields:
-                u[f] = [None] + [recs[i][f] for i in range(1, n + 1)]
+                if f in ("eq", "lt", "st"):      # rows: 1-based in both indices
+                    u[f] = [None] + [[None] + recs[i][f] for i in range(1, n + 1)]
+                else:
+                    u[f] = [None] + [recs[i][f] for i in range(1, n + 1)]
     return u
 
 
@@ -513,3 +516,189 @@ def validate(run, events, label):
             seen.add(key)
             bad.append((b["l"] - 1, b["why"]))
     return bad
+
+
+# --------------------------------------------------------------- generation
+def canon(a):
+    """key under which Equal values coincide (numbers by value, sets and maps
+    by content).  Used only to GENERATE well-formed inputs (sets without equal
+    elements, equal variants); every judgement is made by TLC (WF re-checks)."""
+    k = a["k"]
+    if k in ("int", "dec"):
+        return ("num", Fraction(num_of(a)))
+    if k == "list":
+        return ("list", tuple(canon(x) for x in a["items"]))
+    if k == "set":
+        return ("set", frozenset(canon(x) for x in a["items"]))
+    if k == "map":
+        return ("map", frozenset((canon(x), canon(y)) for x, y in zip(a["items"], a["vals"])))
+    return akey(a)
+
+
+ALPHA = [" ", "!", "#", "'", "(", "A", "a", "b", "é", "\\", "\n", "\t", "/", "{", "<"]
+BIGS = [2 ** 53, 2 ** 53 + 1, 2 ** 53 - 1, 2 ** 64, 2 ** 63, 10 ** 8, 10 ** 8 + 1, 10 ** 20, 123456789012]
+DATES = ["20240101000000", "20240101000001", "19991231235959", "20240229120000", "15000101000000",
+         "20231231235959"]
+
+
+def gen_scalar(rng, kind=None):
+    kind = kind or rng.choice(["null", "bool", "int", "int", "dec", "dec", "str", "str", "date", "pat"])
+    if kind == "null":
+        return a_null()
+    if kind == "bool":
+        return a_bool(rng.random() < 0.5)
+    if kind == "int":
+        r = rng.random()
+        if r < 0.6:
+            return a_int(rng.randint(-3, 3))
+        if r < 0.8:
+            return a_int(rng.randint(-SMALL_MAX, SMALL_MAX))
+        return a_int(rng.choice(BIGS) * rng.choice([1, 1, -1]))
+    if kind == "dec":
+        r = rng.random()
+        if r < 0.5:
+            return a_dec(rng.randint(-12, 12) / rng.choice([1, 1, 2, 4]))
+        if r < 0.6:
+            return a_dec(rng.choice([0.0, -0.0]))
+        if r < 0.8:
+            return a_dec(rng.randint(-SMALL_MAX, SMALL_MAX) / rng.choice([1, 2, 8, 64, 1024]))
+        x = float(rng.choice(BIGS))
+        if x != int(x) or abs(x) < BIG_MIN:
+            x = 2.0 ** 53
+        return a_dec(x * rng.choice([1, -1]))
+    if kind == "str":
+        n = rng.choice([0, 1, 1, 2, 2, 3, 4])
+        return a_str("".join(rng.choice(ALPHA) for _ in range(n)))
+    if kind == "date":
+        return mk("date", s=cps(rng.choice(DATES)))
+    if kind == "pat":
+        return a_pat("".join(rng.choice("aA!b.") for _ in range(rng.randint(1, 3))))
+    raise ValueError(kind)
+
+
+def gen_value(rng, depth, kinds=None, elem=None):
+    """a random abstract value of nesting depth <= depth; elem: generator of
+    scalars (default gen_scalar)"""
+    elem = elem or gen_scalar
+    if depth == 0 or rng.random() < 0.35:
+        return elem(rng)
+    k = rng.choice(kinds or ["list", "set", "map"])
+    n = rng.choice([0, 1, 2, 2, 3, 3, 4, 5])
+    if k == "list":
+        return a_list([gen_value(rng, depth - 1, kinds, elem) for _ in range(n)])
+    items, seen = [], set()
+    for _ in range(n):
+        x = gen_value(rng, depth - 1, kinds, elem)
+        c = canon(x)
+        if c not in seen:
+            seen.add(c)
+            items.append(x)
+    if k == "set":
+        return a_set(items)
+    return a_map(items, [gen_value(rng, max(depth - 1, 0), kinds, elem) for _ in items])
+
+
+def equal_variant(rng, a):
+    """a value Equal to a, spelled differently where possible: int <-> decimal,
+    0.0 <-> -0.0, other insertion orders"""
+    k = a["k"]
+    if k == "int":
+        v = num_of(a)
+        if rng.random() < 0.6 and (abs(v) <= SMALL_MAX or (abs(v) < 2 ** 53 and abs(v) >= BIG_MIN)):
+            return a_dec(float(v))
+        return a
+    if k == "dec":
+        if a["n"] in ([0, 1], [0, -1]):
+            return rng.choice([a_dec(0.0), a_dec(-0.0), a_int(0)])
+        v = Fraction(num_of(a))
+        if v.denominator == 1 and rng.random() < 0.6:
+            try:
+                return a_int(int(v))
+            except Unencodable:
+                return a
+        return a
+    if k == "list":
+        return a_list([equal_variant(rng, x) for x in a["items"]])
+    if k in ("set", "map"):
+        idx = list(range(len(a["items"])))
+        rng.shuffle(idx)
+        its = [equal_variant(rng, a["items"][i]) for i in idx]
+        if k == "set":
+            return a_set(its)
+        return a_map(its, [equal_variant(rng, a["vals"][i]) for i in idx])
+    return a
+
+
+def mutate(rng, a, elem=None):
+    """a value close to a (usually not Equal)"""
+    elem = elem or gen_scalar
+    k = a["k"]
+    if k in ("list", "set", "map") and a["items"] and rng.random() < 0.8:
+        i = rng.randrange(len(a["items"]))
+        b = json.loads(json.dumps(a))
+        r = rng.random()
+        if r < 0.5:
+            b["items"][i] = mutate(rng, a["items"][i], elem)
+        elif r < 0.7 and k == "map":
+            b["vals"][i] = mutate(rng, a["vals"][i], elem)
+        elif r < 0.85:
+            del b["items"][i]
+            if k == "map":
+                del b["vals"][i]
+        else:
+            b["items"].append(elem(rng))
+            if k == "map":
+                b["vals"].append(elem(rng))
+        if k in ("set", "map"):
+            cs = [canon(x) for x in b["items"]]
+            if len(set(cs)) != len(cs):
+                return a
+        return b
+    if k == "int" and a["n"][1] == 1:
+        try:
+            return a_int(a["n"][0] + rng.choice([-1, 1]))
+        except Unencodable:
+            return a
+    if k == "str":
+        s = text(a["s"])
+        r = rng.random()
+        if r < 0.4:
+            return a_str(s + rng.choice(ALPHA))
+        if r < 0.7 and s:
+            return a_str(s[:-1])
+        return a_str(rng.choice(ALPHA) + s)
+    return elem(rng, k) if k in ("null", "bool", "int", "dec", "str", "date", "pat") else elem(rng)
+
+
+def perms_of(a, rng, limit):
+    """abstract containers holding the entries of a in other insertion orders
+    (all of them when few, else a sample)"""
+    import itertools
+    n = len(a["items"])
+    if a["k"] not in ("set", "map") or n < 2:
+        return []
+    allp = list(itertools.permutations(range(n)))[1:]
+    if len(allp) > limit:
+        allp = rng.sample(allp, limit)
+    out = []
+    for p in allp:
+        if a["k"] == "set":
+            out.append(a_set([a["items"][i] for i in p]))
+        else:
+            out.append(a_map([a["items"][i] for i in p], [a["vals"][i] for i in p]))
+    return out
+
+
+def deep_reorder(rng, a):
+    """the same value with every set / map inside it in a random insertion order"""
+    k = a["k"]
+    if k == "list":
+        return a_list([deep_reorder(rng, x) for x in a["items"]])
+    if k in ("set", "map"):
+        idx = list(range(len(a["items"])))
+        rng.shuffle(idx)
+        its = [deep_reorder(rng, a["items"][i]) for i in idx]
+        if k == "set":
+            return a_set(its)
+        return a_map(its, [deep_reorder(rng, a["vals"][i]) for i in idx])
+    return a
